@@ -44,9 +44,7 @@ Run(t, atset, arm) ==    \* returns <<final state, remaining arm>>
        ELSE Run(PostContinueF(t), atset, arm)
   ELSE << t, arm >>
 
-CallF(t, mode) == [BootF(t) EXCEPT !.pc = "pre", !.mode = mode, !.msg = "None", !.began = FALSE,
-                                   !.ncalls = t.ncalls + 1,
-                                   !.exitreq = IF mode = "solve" THEN FALSE ELSE t.exitreq]
+(* CallF (the post-state function of Call) is defined in Lifecycle.tla *)
 
 Observe(t) == [gens |-> Gens(t), fcalls |-> t.fcalls, nsm |-> t.nsm, nem |-> t.nem, ncb |-> t.ncb,
                live |-> t.live, msg |-> t.msg, limG |-> t.limG, limE |-> t.limE, exit |-> t.exitreq]
